@@ -14,7 +14,11 @@ MOLS = [
     "{[#A][#B]|3[#A]}.{#A=[$]C,#B=[$]COC[$]}", "{[#SC4]1[#TC5][#TC5]1}.{#SC4=Cc(c[!])c[!],#TC5=[!]ccc[!]}",
     "{[#A][#B]}.{#A=OC[!],#B=[!]CC}", "{[#SC2][#SC2][#SP1]}.{#SC2=[$]CCC[$],#SP1=[$]CCO}",
     "{[#A][#B]}.{#A=[$][C;0.5]C[O;w=0.25],#B=[$][N;w=2]C}", "{[#TC5]1[#TC5][#TC5]1}.{#TC5=[$]cc[$]}",
-    "{[#A]=[#B]}.{#A=[$]CCC[$],#B=[$]CC(C)C[$]}", "{[#X][#Y]}.{#X=[$]c1ccccc1,#Y=[$]S(=O)(=O)C}",
+    "{[#A]=[#B]}.{#A=[$]CCC[$],#B=[$]CC(C)C[$]}",
+    # beads whose weights add up to less than one
+    "{[#A][#B][#A]}.{#A=[$]C,#B=[$][O;0.5][$]}", "{[#A][#B]}.{#A=[$][N;0.3]=[N;0.3],#B=[$]C}",
+    # an explicit hydrogen residue that is not the last residue
+    "{[#H][#A][#B]}.{#H=[$][H],#A=[$]C[$],#B=[$]O}", "{[#X][#Y]}.{#X=[$]c1ccccc1,#Y=[$]S(=O)(=O)C}",
 ]
 
 
@@ -275,6 +279,10 @@ def run_c19(tier):
         for s in range(nseeds):
             b = bonds[(i + s) % 3]
             recs.append(layout_record(g, b, common.SEED * 100 + s, tag))
+            if g.number_of_nodes() <= 3:      # the smallest graphs at every scale
+                for b2 in bonds:
+                    if b2 != b:
+                        recs.append(layout_record(g, b2, common.SEED * 100 + s, tag))
             if "atlas" in tag or "path" in tag or "ring" in tag:
                 keys = list(g.nodes)
                 perm = keys[:]
